@@ -150,6 +150,8 @@ pub fn ladder_case(ctx: &Ctx, k: usize, rep: &mut Report) {
             cuts.push(Some(t));
         }
     }
+    // one extra variant: every macroblock inter with random vectors (cut = usize::MAX marks it)
+    cuts.push(Some(usize::MAX));
     for (ci, cut) in cuts.into_iter().enumerate() {
         let mut cfg = super::ladder::cfg_for(&mut rng, flavour, w, h, 0);
         // the reference prefers the fixed size code where one exists, the predicted picture the custom one
@@ -167,12 +169,15 @@ pub fn ladder_case(ctx: &Ctx, k: usize, rep: &mut Report) {
         cfg.tr = cfg.tr.wrapping_add(1);
         cfg.prefer_fixed_size_code = ci % 2 == 1;
         cfg.force16 = ci % 3 == 2;
-        let pic = super::ladder::large_inter(&mut rng, &cfg, false, cut);
+        let dense = cut == Some(usize::MAX);
+        let pic = if dense { super::ladder::dense_inter(&mut rng, &cfg) } else { super::ladder::large_inter(&mut rng, &cfg, false, cut) };
         let bytes = pic.encode();
         match check_inter(&mut dec, &refp, &pic, &bytes) {
             Ok(_) => {
                 rep.count("ladder_p_pictures_compared");
-                if cut.is_some() {
+                if dense {
+                    rep.count("ladder_dense_vector_pictures");
+                } else if cut.is_some() {
                     rep.count("ladder_truncated_compared");
                 }
                 rep.distinct.insert(fnv64(&bytes));
